@@ -97,7 +97,8 @@ def run(ctx, args):
     per_prog = 800 if quick else 600          # cases per generated program
     stats = {}
     st = lean_check(ctx, ["LlgoVerif.Props.C09"], ["LlgoVerif/Props/C09.lean"],
-                    extra_files=["LlgoVerif/Model/CAbi.lean", "LlgoVerif/Spec/SysV.lean", "LlgoVerif/Lemmas/CAbi.lean"],
+                    extra_files=["LlgoVerif/Model/CAbi.lean", "LlgoVerif/Spec/SysV.lean", "LlgoVerif/Spec/AAPCS64.lean",
+                                 "LlgoVerif/Lemmas/CAbi.lean", "LlgoVerif/Lemmas/CAbiLayout.lean"],
                     leanchecker=(ctx.tier == "thorough"))
     for name, s in st.items():
         if s != "ok":
@@ -226,6 +227,9 @@ def run(ctx, args):
     # ---------------------------------------------------------------- spec validation against clang
     spec_val = validate_spec_with_clang(ctx, shapes[:(400 if quick else 3000)], codes, shape_info, modeld, rng)
     stats["spec_validation_clang"] = spec_val
+
+    # ---------------------------------------------------------------- arm64 classifier (no execution: in-process + clang only)
+    stats["arm64"] = arm64_check(ctx, harness, modeld, shapes, codes, 400 if quick else 3000)
 
     # ---------------------------------------------------------------- (iii) C strings, native route
     cstr_stats = cstr_native(ctx, modeld, rng, 400 if quick else 5000)
@@ -406,10 +410,10 @@ def run(ctx, args):
         "generators in vlib/c09_gen.py; expected values cross-checked by C-to-C runs (gcc callee + clang caller; all gcc)",
         "native-copy route for z_string.go (clite stand-in: memcpy/strlen over Go memory)",
     ]
-    ctx.assumptions += ["only amd64 executes; the arm64/arm/riscv/386/wasm classifiers are not covered",
+    ctx.assumptions += ["only amd64 executes; arm64 is covered for the classifier only (model + in-process + clang), arm/riscv/386/wasm/esp32 not at all",
                         "natural layout only (no packed structs, bit-fields, long double, vectors, zero-length arrays, unions)",
                         "varargs C functions are not generated"]
-    evaluations = len(lines) + len(sig_lines) + len(e2e_stats["runs"]) * 0 + sum(r["cases"] for r in e2e_stats["runs"]) + cstr_stats.get("cases", 0)
+    evaluations = stats["arm64"]["lines"] + len(lines) + len(sig_lines) + len(e2e_stats["runs"]) * 0 + sum(r["cases"] for r in e2e_stats["runs"]) + cstr_stats.get("cases", 0)
     stats.update({"shapes_classified": len(codes), "kinds": kinds_hist, "unsound_on_real_code": n_unsound, "unsound_on_naturally_laid_out_shapes": n_unsound_natural,
                   "natural_shapes": sum(1 for c in codes if shape_info[c]["natural"]),
                   "size_le16": sum(1 for t in shapes if G.layout(t)[0] <= 16), "nested": sum(1 for t in shapes if not G.is_flat(t)),
@@ -535,6 +539,104 @@ def validate_spec_with_clang(ctx, shapes, codes, shape_info, modeld, rng):
             (len(shapes), len(sigs), n_mem, len(mism)))
     return {"shapes": len(shapes), "signatures": len(sigs), "signatures_with_aggregate_in_memory": n_mem, "mismatches": len(mism), "first": mism[:3]}
 
+
+
+# ------------------------------------------------------------------------------------------------ arm64
+def clang64_class(p):
+    t = p.strip()
+    if t.startswith("[") and " x float]" in t:
+        return "hfa %s float" % t[1:t.index(" x")]
+    if t.startswith("[") and " x double]" in t:
+        return "hfa %s double" % t[1:t.index(" x")]
+    if t.startswith("[2 x i64]"):
+        return "gpr 2"
+    if "sret(" in t:
+        return "sret"
+    if t.startswith("%struct.") and "*" in t.split()[0]:
+        return "memory"
+    if t.startswith("i") or t.startswith("ptr"):
+        return "gpr 1"
+    return "?" + t
+
+
+def arm64_check(ctx, harness, modeld, shapes, codes, n_clang):
+    """TypeInfoArm64.GetTypeInfo: real (GOARCH=arm64 transformer, in-process) vs model, judged against Spec/AAPCS64,
+    and Spec/AAPCS64 vs clang --target=aarch64-linux-gnu"""
+    lines = []
+    for c in codes:
+        lines += ["cls64 " + c, "clsret64 " + c]
+    real, _, err = run_lines([harness], lines)
+    if len(real) != len(lines):
+        raise HarnessBuildError("harness/c09 died on arm64 lines: %s" % err[-2000:])
+    model, _, _ = run_lines([modeld], lines)
+    spec, _, _ = run_lines([modeld], ["spec64 " + c for c in codes])
+    jl = []
+    for i, c in enumerate(codes):
+        jl += ["judge64 arg %s %s" % (c, kind_of(real[2 * i])), "judge64 ret %s %s" % (c, kind_of(real[2 * i + 1]))]
+    judged, _, _ = run_lines([modeld], jl)
+    mism = [(l, a, b) for l, a, b in zip(lines, real, model) if a != b]
+    unsound = [(l, r) for l, r, j in zip(lines, real, judged) if j != "sound"]
+    for l, r in unsound[:3]:
+        ctx.report("cabi:arm64:classify:" + l.replace(" ", "_"), "internal/cabi (arm64) classifies %s as '%s': not what AAPCS64 prescribes" %
+                   (l.split()[1], kind_of(r)), {"line": l, "real": r})
+    if mism:
+        ctx.broken.append("correspondence arm64 classifier real vs Lean model: %d lines differ, e.g. %s" % (len(mism), mism[0]))
+        if not ctx.violations:
+            ctx.report_broken("correspondence C09 arm64 classification real-vs-model", {"first": mism[:5]})
+    # specification vs clang
+    d = os.path.join(ctx.scratch, "clang64")
+    os.makedirs(d, exist_ok=True)
+    sub = shapes[:n_clang]
+    src = ["#include <stdint.h>"]
+    for i, t in enumerate(sub):
+        nm = G.Names("T%d" % i, t)
+        src += nm.decl_c
+        src.append("void fa%d(struct T%d s) {}" % (i, i))
+        src.append("struct T%d fr%d(void) { struct T%d s; __builtin_memset(&s, 0, sizeof s); return s; }" % (i, i, i))
+    open(os.path.join(d, "spec64.c"), "w").write("\n".join(src) + "\n")
+    p = tool(["clang", "--target=aarch64-linux-gnu", "-ffreestanding", "-S", "-emit-llvm", "-O0", "-o", "spec64.ll", "spec64.c"], cwd=d)
+    cm = []
+    if p.returncode != 0:
+        ctx.log("clang (aarch64) failed on the specification-validation file: " + p.stderr[-400:])
+        cm.append({"clang": p.stderr[-300:]})
+    else:
+        defs = {}
+        for line in open(os.path.join(d, "spec64.ll")):
+            if line.startswith("define"):
+                name = line[line.index("@") + 1:line.index("(", line.index("@"))]
+                defs[name] = clang_params(line)
+        for i, t in enumerate(sub):
+            sp = spec[i]
+            ret, ps = defs["fa%d" % i]
+            got = [clang64_class(x) for x in ps]
+            want = [] if sp == "none" else [sp]
+            if got != want:
+                cm.append({"shape": codes[i], "spec": sp, "clang_param": ps})
+            ret, ps = defs["fr%d" % i]
+            if sp == "memory":
+                ok = ret == "void" and ps and clang64_class(ps[0]) == "sret"
+            elif sp == "none":
+                ok = ret == "void" and not ps
+            elif sp.startswith("hfa"):
+                ok = ret.startswith("%struct.") or clang64_class(ret) == sp
+            else:
+                ok = clang64_class(ret) == sp
+            if not ok:
+                cm.append({"shape": codes[i], "spec": sp, "clang_result": [ret] + ps})
+    if cm:
+        ctx.broken.append("Spec/AAPCS64.lean disagrees with clang (aarch64) on %d shapes" % len(cm))
+        if not ctx.violations:
+            ctx.report_broken("specification validation: Spec/AAPCS64 vs clang --target=aarch64", cm[:3])
+    hist = {}
+    for r in real[::2]:
+        k = kind_of(r)
+        hist[k] = hist.get(k, 0) + 1
+    ctx.log("arm64: %d shapes x {param,result}; real vs model mismatches %d; unsound %d; AAPCS64 spec vs clang on %d shapes: %d mismatches" %
+            (len(codes), len(mism), len(unsound), len(sub), len(cm)))
+    ctx.coverage["trusted_base"].append("Spec/AAPCS64.lean = my reading of AAPCS64 for the C09 universe, validated against clang-14 --target=aarch64-linux-gnu "
+                                        "on %d shapes; the arm64 classifier is tied in-process only (nothing executes on arm64)" % len(sub))
+    return {"lines": len(lines), "mismatches": len(mism), "unsound_on_real_code": len(unsound), "param_kinds": hist,
+            "spec_vs_clang_shapes": len(sub), "spec_vs_clang_mismatches": len(cm), "first": cm[:3]}
 
 # ------------------------------------------------------------------------------------------------ execution
 def write_prog(ctx, shapes, cases, name):
